@@ -28,6 +28,22 @@ pub struct Shared {
     pub stats: Mutex<Stats>,
     pub live_sw: AtomicI64,
     pub committed_incr: AtomicU64,
+    /// fault runs: failing writes are recorded instead of being violations
+    pub tolerate: bool,
+    pub failed: Mutex<Vec<WriteRec>>,
+    pub acked: Mutex<Vec<WriteRec>>,
+}
+
+/// A write op of a fault run: who, when (stamps and scheduler steps), what it writes
+#[derive(Clone, Debug)]
+pub struct WriteRec {
+    pub thread: usize,
+    pub invoke: u64,
+    pub ret: u64,
+    pub steps: (u64, u64),
+    pub op: LOp,
+    pub label: String,
+    pub error: Option<String>,
 }
 
 impl Shared {
@@ -48,6 +64,25 @@ impl Shared {
     }
     fn push(&self, thread: usize, invoke: u64, ret: u64, op: LOp, label: String) {
         self.events.lock().unwrap().push(LEvent { thread, invoke, ret, op, label, steps: None });
+    }
+    /// Records the outcome of a journaled write op
+    #[allow(clippy::too_many_arguments)]
+    fn wrote(&self, thread: usize, invoke: u64, ret: u64, steps: (u64, u64), op: LOp, label: String, res: Result<(), String>) {
+        match res {
+            Ok(()) => {
+                if self.tolerate {
+                    self.acked.lock().unwrap().push(WriteRec { thread, invoke, ret, steps, op: op.clone(), label: label.clone(), error: None });
+                }
+                self.push(thread, invoke, ret, op, label);
+            }
+            Err(e) => {
+                if self.tolerate {
+                    self.failed.lock().unwrap().push(WriteRec { thread, invoke, ret, steps, op, label, error: Some(e) });
+                } else {
+                    self.fail("unexpected-error", format!("{label} failed: {e}"));
+                }
+            }
+        }
     }
     fn push_steps(&self, thread: usize, invoke: u64, ret: u64, op: LOp, label: String, steps: (u64, u64)) {
         self.events.lock().unwrap().push(LEvent { thread, invoke, ret, op, label, steps: Some(steps) });
@@ -99,22 +134,20 @@ fn client_op(sh: &Shared, tid: usize, op: &Op, views: &mut BTreeMap<u8, ViewAcc>
         Op::Insert { ks, key, val } => {
             let k = ks!(*ks);
             let inv = sh.stamp();
+            let s0 = sched::steps();
             let r = k.insert(&keys[*key as usize], val.bytes());
+            let s1 = sched::steps();
             let ret = sh.stamp();
-            match r {
-                Ok(()) => sh.push(tid, inv, ret, LOp::Write(vec![(sh.cell(*ks, *key), Some(val.bytes()))]), label),
-                Err(e) => sh.fail("unexpected-error", format!("{label} failed: {e:?}")),
-            }
+            sh.wrote(tid, inv, ret, (s0, s1), LOp::Write(vec![(sh.cell(*ks, *key), Some(val.bytes()))]), label, r.map_err(e2s));
         }
         Op::Remove { ks, key } => {
             let k = ks!(*ks);
             let inv = sh.stamp();
+            let s0 = sched::steps();
             let r = k.remove(&keys[*key as usize]);
+            let s1 = sched::steps();
             let ret = sh.stamp();
-            match r {
-                Ok(()) => sh.push(tid, inv, ret, LOp::Write(vec![(sh.cell(*ks, *key), None)]), label),
-                Err(e) => sh.fail("unexpected-error", format!("{label} failed: {e:?}")),
-            }
+            sh.wrote(tid, inv, ret, (s0, s1), LOp::Write(vec![(sh.cell(*ks, *key), None)]), label, r.map_err(e2s));
         }
         Op::Batch { items, dur: d } => {
             let mut b = sh.db.batch();
@@ -139,22 +172,20 @@ fn client_op(sh: &Shared, tid: usize, op: &Op, views: &mut BTreeMap<u8, ViewAcc>
                 return;
             }
             let inv = sh.stamp();
+            let s0 = sched::steps();
             let r = b.commit();
+            let s1 = sched::steps();
             let ret = sh.stamp();
-            match r {
-                Ok(()) => sh.push(tid, inv, ret, LOp::Write(ws), label),
-                Err(e) => sh.fail("unexpected-error", format!("{label} failed: {e:?}")),
-            }
+            sh.wrote(tid, inv, ret, (s0, s1), LOp::Write(ws), label, r.map_err(e2s));
         }
         Op::Clear { ks } => {
             let k = ks!(*ks);
             let inv = sh.stamp();
+            let s0 = sched::steps();
             let r = k.clear();
+            let s1 = sched::steps();
             let ret = sh.stamp();
-            match r {
-                Ok(()) => sh.push(tid, inv, ret, LOp::Clear(*ks), label),
-                Err(e) => sh.fail("unexpected-error", format!("{label} failed: {e:?}")),
-            }
+            sh.wrote(tid, inv, ret, (s0, s1), LOp::Clear(*ks), label, r.map_err(e2s));
         }
         Op::Ingest { ks, items } => {
             let k = ks!(*ks);
@@ -237,7 +268,9 @@ fn client_op(sh: &Shared, tid: usize, op: &Op, views: &mut BTreeMap<u8, ViewAcc>
         Op::Rotate { ks } => {
             let k = ks!(*ks);
             if let Err(e) = k.rotate_memtable() {
-                sh.fail("unexpected-error", format!("{label} failed: {e:?}"));
+                if !sh.tolerate {
+                    sh.fail("unexpected-error", format!("{label} failed: {e:?}"));
+                }
             }
         }
         Op::MajorCompact { ks } => {
@@ -247,7 +280,14 @@ fn client_op(sh: &Shared, tid: usize, op: &Op, views: &mut BTreeMap<u8, ViewAcc>
             }
         }
         Op::Persist { mode } => {
-            if let Err(e) = sh.db.persist(dur(mode)) {
+            let inv = sh.stamp();
+            let s0 = sched::steps();
+            let r = sh.db.persist(dur(mode));
+            let s1 = sched::steps();
+            let ret = sh.stamp();
+            if sh.tolerate {
+                sh.wrote(tid, inv, ret, (s0, s1), LOp::All(vec![]), label, r.map_err(e2s));
+            } else if let Err(e) = r {
                 sh.fail("unexpected-error", format!("{label} failed: {e:?}"));
             }
         }
@@ -552,6 +592,17 @@ pub fn run_thr(case: &Case, dir: PathBuf) -> Outcome {
     let mut stats = Stats::default();
     let mut violation: Option<Violation> = None;
 
+    // power-loss runs: the synced images must cover the directory from its creation on
+    let pmon = if matches!(case.fault, Fault::Power { .. }) {
+        let scratch = dir.with_extension("scratch");
+        crate::interpose::bypass(|| std::fs::create_dir_all(&scratch).ok());
+        let m = crate::faults::Mon::new(&dir, &scratch, Fault::Power { points: Some(vec![]), variant: 0, vseed: case.seed }, case.seed);
+        crate::faults::install(&m);
+        m.lock().unwrap().enabled = true;
+        Some(m)
+    } else {
+        None
+    };
     let inst = Instance::open(&dir, &case.cfg);
     let mut inst = match inst {
         Ok(i) => i,
@@ -563,6 +614,18 @@ pub fn run_thr(case: &Case, dir: PathBuf) -> Outcome {
             return o;
         }
     };
+    // fault runs: I/O errors injected through the libc seam (the monitor is thread safe and only one
+    // scheduled thread runs at a time)
+    let mon = if matches!(case.fault, Fault::Io { .. }) {
+        let scratch = dir.with_extension("scratch");
+        crate::interpose::bypass(|| std::fs::create_dir_all(&scratch).ok());
+        let m = crate::faults::Mon::new(&dir, &scratch, case.fault.clone(), case.seed);
+        crate::faults::install(&m);
+        Some(m)
+    } else {
+        None
+    };
+    let is_power = matches!(case.fault, Fault::Power { .. });
     // setup part of the main program (up to RunThreads)
     let split = case.program.iter().position(|o| matches!(o, Op::RunThreads)).unwrap_or(case.program.len());
     for op in &case.program[..split] {
@@ -587,6 +650,9 @@ pub fn run_thr(case: &Case, dir: PathBuf) -> Outcome {
         stats: Mutex::new(Stats::default()),
         live_sw: AtomicI64::new(0),
         committed_incr: AtomicU64::new(0),
+        tolerate: matches!(case.fault, Fault::Io { .. } | Fault::Power { .. }),
+        failed: Mutex::new(vec![]),
+        acked: Mutex::new(vec![]),
     });
     drop(inst);
     let mut mviews = BTreeMap::new();
@@ -619,6 +685,9 @@ pub fn run_thr(case: &Case, dir: PathBuf) -> Outcome {
     };
     sh.txlog.lock().unwrap().clear();
 
+    if let Some(m) = &mon {
+        m.lock().unwrap().enabled = true;
+    }
     // client threads
     let mut ids = vec![];
     let mut handles = vec![];
@@ -656,6 +725,9 @@ pub fn run_thr(case: &Case, dir: PathBuf) -> Outcome {
     if let Some(f) = sched::failure() {
         // deadlock / livelock / lost baton: the process state is beyond repair; leak everything
         let clause = if f.starts_with("harness") { "harness" } else { "no-progress" };
+        if mon.is_some() || pmon.is_some() {
+            crate::faults::uninstall();
+        }
         let rec = sched::end();
         crate::hooks::set_mode(crate::hooks::MODE_SEQ);
         std::mem::forget(handles);
@@ -675,6 +747,17 @@ pub fn run_thr(case: &Case, dir: PathBuf) -> Outcome {
     for h in handles {
         let _ = h.join();
     }
+    let mut fault_desc = String::new();
+    if let Some(m) = &mon {
+        let mut g = m.lock().unwrap();
+        g.enabled = false;
+        fault_desc = g.io.fired_desc.clone();
+        stats.merge(&g.stats);
+        if g.io.fired_at_call.is_some() {
+            stats.inc("io_fault_fired");
+        }
+    }
+    let poisoned_after_run = fjall::verif::is_poisoned(&sh.db);
     // rest of the main program, then the final content
     for op in case.program.iter().skip(split + 1) {
         client_op(&sh, 0, op, &mut mviews, &mut mtxs);
@@ -723,20 +806,53 @@ pub fn run_thr(case: &Case, dir: PathBuf) -> Outcome {
         violation = sh.violation.lock().unwrap().clone();
     }
     let events = sh.events.lock().unwrap().clone();
+    let acked_w = sh.acked.lock().unwrap().clone();
+    let failed_w = sh.failed.lock().unwrap().clone();
     let txlog = sh.txlog.lock().unwrap().clone();
     let committed_incr = sh.committed_incr.load(Ordering::SeqCst);
     stats.merge(&sh.stats.lock().unwrap());
     let cfg = case.cfg.clone();
     // drop every handle on this (scheduled) thread: fjall's drop logic runs under the scheduler
-    drop(mviews);
-    drop(mtxs);
-    match Arc::try_unwrap(sh) {
-        Ok(s) => drop(s),
-        Err(a) => drop(a),
-    }
-    // every scheduled thread (fjall's workers included) must have left the section
-    sched::wait_until("final_join", || sched::live_threads() <= 1);
+    let pmon2 = pmon.clone();
+    let drop_snap: Arc<Mutex<Option<crate::faults::Snap>>> = Arc::new(Mutex::new(None));
+    let drop_snap2 = drop_snap.clone();
+    let closing = std::panic::catch_unwind(std::panic::AssertUnwindSafe(move || {
+        drop(mviews);
+        drop(mtxs);
+        match Arc::try_unwrap(sh) {
+            Ok(s) => drop(s),
+            Err(a) => drop(a),
+        }
+        // the instant the last user handle's drop has returned: what would survive a power loss?
+        if let Some(m) = &pmon2 {
+            let live_workers = sched::live_threads().saturating_sub(1);
+            let mut g = m.lock().unwrap();
+            if live_workers > 0 {
+                g.stats.inc("probe_worker_alive_when_drop_returned");
+            }
+            *drop_snap2.lock().unwrap() = g.power_state_now("right after the last handle was dropped");
+        }
+        // every scheduled thread (fjall's workers included) must have left the section
+        sched::wait_until("final_join", || sched::live_threads() <= 1);
+    }));
+    let close_failure = sched::failure();
     let rec = sched::end();
+    if closing.is_err() || close_failure.is_some() {
+        crate::hooks::set_mode(crate::hooks::MODE_SEQ);
+        if mon.is_some() || pmon.is_some() {
+            crate::faults::uninstall();
+        }
+        let f = close_failure.unwrap_or_else(|| "panic while closing".into());
+        let mut o = Outcome::ok(stats, rec.hash);
+        o.violation = Some(Violation::new(
+            "no-progress",
+            format!("dropping the last database handle never completes: {f}{}", if fault_desc.is_empty() { String::new() } else { format!(" (after the injected {fault_desc})") }),
+        ));
+        o.schedule = Some(rec.choices);
+        o.shape = crate::rng::mix(rec.hash);
+        o.nontrivial = true;
+        return o;
+    }
     crate::hooks::set_mode(crate::hooks::MODE_SEQ);
     if let Some(f) = &rec.failure {
         if violation.is_none() {
@@ -764,7 +880,30 @@ pub fn run_thr(case: &Case, dir: PathBuf) -> Outcome {
             }
         }
     }
-    if violation.is_none() {
+    if mon.is_some() {
+        crate::faults::uninstall();
+        if violation.is_none() {
+            violation = check_fault_run(case, &dir, &initial, &acked_w, &failed_w, &rec.log, &fault_desc, poisoned_after_run, &mut stats);
+        }
+    }
+    if let Some(m) = &pmon {
+        crate::faults::uninstall();
+        stats.merge(&m.lock().unwrap().stats);
+        if violation.is_none() {
+            if let Some(snap) = drop_snap.lock().unwrap().take() {
+                stats.inc("power_state_after_drop_checked");
+                // the power-loss state must hold every acknowledged write (commit order)
+                violation = check_fault_run(case, &snap.dir, &initial, &acked_w, &failed_w, &rec.log, "power loss right after the last handle was dropped", false, &mut stats).map(|mut v| {
+                    v.clause = "drop-not-durable".into();
+                    v.detail = format!("a power loss right after drop(Database) returned loses acknowledged writes (the journal was not synced yet): {}", v.detail);
+                    v
+                });
+                crate::fsutil::remove_tree(&snap.dir);
+            }
+        }
+    }
+    let _ = is_power;
+    if violation.is_none() && mon.is_none() && pmon.is_none() {
         match case.prop.as_str() {
             "C07" => {
                 let final_state = match &final_store {
@@ -839,6 +978,105 @@ pub fn run_thr(case: &Case, dir: PathBuf) -> Outcome {
     o.nontrivial = rec.switches > 2 && !events.is_empty() || !txlog.is_empty();
     o.evals = 1;
     o
+}
+
+/// C13 (THR): fail-stop with several writer threads and fjall's own workers.
+#[allow(clippy::too_many_arguments)]
+fn check_fault_run(
+    case: &Case,
+    dir: &std::path::Path,
+    initial: &Store,
+    acked: &[WriteRec],
+    failed: &[WriteRec],
+    log: &[(u64, usize, &'static str, u64)],
+    fault_desc: &str,
+    poisoned: bool,
+    stats: &mut Stats,
+) -> Option<Violation> {
+    // (2) nothing is acknowledged once a failure has been reported to some caller
+    if let Some(first) = failed.iter().min_by_key(|f| f.ret) {
+        stats.inc("failure_reported");
+        for a in acked {
+            if a.invoke > first.ret {
+                return Some(Violation::new(
+                    "write-acknowledged-after-failure",
+                    format!("{} was acknowledged (invoked at {}) although {} had already returned an error at {} after the injected {fault_desc}", a.label, a.invoke, first.label, first.ret),
+                ));
+            }
+        }
+    }
+    if poisoned {
+        stats.inc("poisoned_after_run");
+    }
+    // (3) reopen: every acknowledged write in commit order, failed writes all-or-nothing
+    let seqno_of = |w: &WriteRec| -> Option<u64> {
+        log.iter().find(|(step, tid, site, _)| *tid == w.thread && site.ends_with("_seqno") && w.steps.0 <= *step && *step <= w.steps.1).map(|x| x.3)
+    };
+    let mut ordered: Vec<(u64, &WriteRec, bool)> = vec![];
+    for a in acked {
+        if matches!(a.op, LOp::All(_)) {
+            continue;
+        }
+        match seqno_of(a) {
+            Some(s) => ordered.push((s, a, true)),
+            None => return Some(Violation::new("harness", format!("no seqno recorded for acknowledged {}", a.label))),
+        }
+    }
+    let optional: Vec<(u64, &WriteRec)> = failed.iter().filter(|f| !matches!(f.op, LOp::All(_))).filter_map(|f| seqno_of(f).map(|s| (s, f))).collect();
+    let real = match std::panic::catch_unwind(std::panic::AssertUnwindSafe(|| crate::faults::read_dir_state(dir, &case.cfg))) {
+        Ok(Ok(r)) => r,
+        Ok(Err(e)) => return Some(Violation::new("reopen-after-failure", format!("after the injected {fault_desc} reopening fails: {e}"))),
+        Err(_) => return Some(Violation::new("reopen-after-failure", format!("after the injected {fault_desc} reopening panics"))),
+    };
+    let mut real_store = Store::new();
+    for (ks, m) in &real {
+        for (k, v) in m {
+            real_store.insert((*ks, k.clone()), v.clone());
+        }
+    }
+    stats.inc("reopen_after_fault_checked");
+    let n = optional.len().min(6);
+    for mask in 0..(1u32 << n) {
+        let mut all: Vec<(u64, &LOp)> = ordered.iter().map(|(s, w, _)| (*s, &w.op)).collect();
+        for (i, (s, f)) in optional.iter().take(n).enumerate() {
+            if mask & (1 << i) != 0 {
+                all.push((*s, &f.op));
+            }
+        }
+        all.sort_by_key(|x| x.0);
+        let mut st = initial.clone();
+        for (_, op) in all {
+            match op {
+                LOp::Write(ws) => {
+                    for (c, v) in ws {
+                        match v {
+                            Some(v) => {
+                                st.insert(c.clone(), v.clone());
+                            }
+                            None => {
+                                st.remove(c);
+                            }
+                        }
+                    }
+                }
+                LOp::Clear(ks) => st.retain(|(k, _), _| k != ks),
+                _ => {}
+            }
+        }
+        if st == real_store {
+            return None;
+        }
+    }
+    Some(Violation::new(
+        "reopen-after-failure",
+        format!(
+            "after the injected {fault_desc} reopening shows {} which is not the acknowledged writes in commit order plus any subset of the {} failed writes; acknowledged: {:?}; failed: {:?}",
+            crate::faults::brief_maps(&real),
+            optional.len(),
+            ordered.iter().map(|(s, w, _)| format!("{s}:{}", w.label)).collect::<Vec<_>>(),
+            failed.iter().map(|f| format!("{} -> {:?}", f.label, f.error)).collect::<Vec<_>>()
+        ),
+    ))
 }
 
 /// Commits (seqno draws) of the run with the step at which they were fully applied
